@@ -5,6 +5,10 @@ import ObiVerif.Model.LcsBuf
 import ObiVerif.Lemmas.LcsD1Verbatim
 import ObiVerif.Lemmas.LcsVerbatimTop
 import ObiVerif.Lemmas.LcsVerbatimIndep
+import ObiVerif.Model.LcsEgf
+import ObiVerif.Lemmas.LcsEgfTop
+import ObiVerif.Lemmas.LcsEgfSound
+import ObiVerif.Lemmas.LcsSentinel
 /-!
 # C09 — LCS and one-difference kernels are exact within their error bound (property theorems)
 
@@ -406,5 +410,163 @@ example : (∀ c ∈ [(([97, 99, 103, 116], [97, 103], 2, false) : Seq × Seq ×
       resOf (bandLCS [97, 99] [97] 1)) = ((2, 4, 0), (3, 4, 0), (1, 2, 0)) := by decide
 example : d1or0 [97, 97, 98] [97, 98] = .ok ⟨1, 1, 97, 45⟩ := by
   rw [d1or0_verbatim_refines]; exact congrArg _ (by decide)
+
+/-! ## endgapfree = true (`FastLCSEGFScore`): specification, structural layer, refinement, soundness
+
+Specification (Model/LcsEgf.lean). After the swap `A` is the LONGER sequence (the first argument when the lengths are
+equal), `B` the shorter. `EgfAli samenuc A B s l`: `A = pre ++ mid ++ suf` and the factor `mid` has an alignment with
+the WHOLE of `B` with `l` columns, `s` of them matches — the gaps at both ends of the shorter sequence (the overhangs
+`pre`, `suf` of the longer one) cost no column, the gaps at the ends of the longer one do (read off the code: row 0 is
+`encodeValues(0,0,false)`, column 0 is `encodeValues(0,i,false)`, `Sleft` is not incremented in the last row,
+`maxError += delta`; `FastLCSEGFScore` has no caller in the code base, so the code is the only source).
+`EgfOpt … s l`: `(s, l)` is realised and no end-gap-free alignment has a higher score or the same score with fewer
+columns. Structural layer `bandEGF`: the banded matrix by rows with `bandCellE`.
+
+FULL STATEMENT (not proved, tied by the naive end-gap-free DP oracle of the harness on the real code and stated
+here for the record):
+  `∀ a b e, |a| + |b| < 30000 → (e = -1 ∨ l* - s* ≤ e) → EgfOpt samenuc (egfLong a b) (egfShort a b) s* l* →
+     bandEGF a b e = some (s*, l*)`
+What IS proved, for all inputs: `fastLCSEGF_verbatim_refines` (the verbatim kernel = `bandEGF`: (score, length) for
+every bound and every scratch buffer, never a panic, and `0 ≤ end ≤ max(|a|, |b|)`), `fastLCSEGF_sound` (an answer is
+the score and length of an actual end-gap-free alignment: never spurious), `fastLCSEGF_exact_partial` (hence it is
+dominated by the end-gap-free optimum; the missing half is "every in-band end-gap-free alignment of the prefixes is
+below the cell", the analogue of `bandCell_lb` of Lemmas/LcsBand.lean for `bandCellE`). The meaning of the third result
+`end` (column of the last row at which the free trailing run that holds the longest path starts) is NOT specified:
+only its range is proved; its value is tied by correspondence. -/
+
+/-- **`fastLCSEGF_verbatim_refines`** — for ALL sequences (no length bound), every bound `e` and every scratch buffer,
+the verbatim kernel with endgapfree = true does not panic and returns `resOfE (bandEGF a b e) end`: `(-1, -1, -1)` for
+`none`, `(s, l, end)` for `some (s, l)`, with `0 ≤ end ≤ max(|a|, |b|)`. -/
+theorem fastLCSEGF_verbatim_refines (a b : Seq) (e : Int) (fill : Option UInt64) :
+    ∃ en : Int, fastLCSEGFScoreByte a b e true fill = .ok (resOfE (bandEGF a b e) en) ∧ 0 ≤ en ∧
+      en ≤ (max a.length b.length : Nat) :=
+  fastLCS_egf_refines a b e fill
+
+/-- the same on the caller's buffer, whatever its capacity and content -/
+theorem fastLCSEGF_buffer_refines (a b : Seq) (e : Int) (buf0 : Array UInt64) :
+    ∃ buf' en, fastLCSBuf a b e true buf0 = .ok (resOfE (bandEGF a b e) en, buf') ∧ 0 ≤ en ∧
+      en ≤ (max a.length b.length : Nat) :=
+  fastLCSBuf_egf_refines a b e buf0
+
+/-- `FastLCSEGFScore` (the exported wrapper: endgapfree = true on the stored sequences) -/
+theorem fastLCSEGFScore_verbatim_refines (a b : Seq) (e : Int) :
+    ∃ en : Int, fastLCSEGFScore a b e = .ok (resOfE (bandEGF a b e) en) ∧ 0 ≤ en ∧
+      en ≤ (max a.length b.length : Nat) :=
+  fastLCS_egf_refines a b e none
+
+/-- **`fastLCSEGF_sound`** — never a spurious answer, every bound, all sequences with `|a| + |b| < 30000`: an answer
+`(s, l)` is the score and the number of columns of an alignment of a FACTOR of the longer sequence with the whole of
+the shorter one. -/
+theorem fastLCSEGF_sound (a b : Seq) (e : Int) (s l : Nat) (hlen : a.length + b.length + 1 ≤ 30000)
+    (h : bandEGF a b e = some (s, l)) : EgfAli samenuc (egfLong a b) (egfShort a b) s l :=
+  bandEGF_sound a b e s l hlen h
+
+/-- **`fastLCSEGF_exact_partial`** — the half of exactness that is proved: an answer is realised by an end-gap-free
+alignment and is dominated by the end-gap-free optimum (lower score, or the same score and at least as many columns).
+Missing for the full statement above: that within the bound the answer also dominates every end-gap-free alignment. -/
+theorem fastLCSEGF_exact_partial (a b : Seq) (e : Int) (s l s' l' : Nat) (hlen : a.length + b.length + 1 ≤ 30000)
+    (h : bandEGF a b e = some (s, l)) (hopt : EgfOpt samenuc (egfLong a b) (egfShort a b) s' l') :
+    EgfAli samenuc (egfLong a b) (egfShort a b) s l ∧ (s < s' ∨ (s = s' ∧ l' ≤ l)) :=
+  ⟨bandEGF_sound a b e s l hlen h, hopt.2 s l (bandEGF_sound a b e s l hlen h)⟩
+
+/-- **`fastLCSEGF_verbatim_sound`** — soundness on the verbatim kernel, any scratch buffer -/
+theorem fastLCSEGF_verbatim_sound (a b : Seq) (e : Int) (fill : Option UInt64) (hlen : a.length + b.length + 1 ≤ 30000) :
+    fastLCSEGFScoreByte a b e true fill = .ok (-1, -1, -1) ∨
+    ∃ (s l : Nat) (en : Int), fastLCSEGFScoreByte a b e true fill = .ok ((s : Int), (l : Int), en) ∧
+      0 ≤ en ∧ en ≤ (max a.length b.length : Nat) ∧ EgfAli samenuc (egfLong a b) (egfShort a b) s l := by
+  obtain ⟨en, h, h0, h1⟩ := fastLCS_egf_refines a b e fill
+  rw [h]
+  cases hb : bandEGF a b e with
+  | none => left; rfl
+  | some p => right; exact ⟨p.1, p.2, en, rfl, h0, h1, bandEGF_sound a b e p.1 p.2 hlen hb⟩
+
+/-- non-vacuity (tests on sample values): "ccacgtcc" / "acgt" with the bound 0 — end-gap-free the factor "acgt" aligns
+with 4 columns (the plain kernel answers "not found" with the bound 0 and (4, 8) with the bound 4); the naive
+end-gap-free recurrence `egfDP` gives the same; `EgfAli` is inhabited by the obvious factorisation -/
+example : bandEGF [99, 99, 97, 99, 103, 116, 99, 99] [97, 99, 103, 116] 0 = some (4, 4) ∧
+    bandLCS [99, 99, 97, 99, 103, 116, 99, 99] [97, 99, 103, 116] 0 = none ∧
+    bandLCS [99, 99, 97, 99, 103, 116, 99, 99] [97, 99, 103, 116] 4 = some (4, 8) ∧
+    egfDP samenuc [99, 99, 97, 99, 103, 116, 99, 99] [97, 99, 103, 116] = (4, 4) :=
+  ⟨by decide +kernel, by decide +kernel, by decide +kernel, by decide +kernel⟩
+example : EgfAli samenuc [99, 99, 97, 99, 103, 116, 99, 99] [97, 99, 103, 116] 4 4 :=
+  ⟨[99, 99], [97, 99, 103, 116], [99, 99], rfl,
+    Ali.pair (m := samenuc) 97 97 (Ali.pair (m := samenuc) 99 99 (Ali.pair (m := samenuc) 103 103
+      (Ali.pair (m := samenuc) 116 116 Ali.nil)))⟩
+/-- the shorter sequence given first, one mismatch (test on one value) -/
+example : bandEGF [97, 99, 103, 116] [99, 99, 97, 99, 116, 116, 99, 99] 1 = some (3, 4) := by decide +kernel
+
+/-! ## The sentinel length 30000 and the true length bound
+
+The exactness / soundness theorems assume `|a| + |b| < 30000`; the refinement theorems do not, because BOTH layers work
+on the real `uint64` words with the real 16-bit fields and wrap in the same way. Beyond the bound the kernel is really
+wrong (not only unproved): -/
+
+/-- **`lcs_sentinel_role`** — while lengths stay below 30000 the two sentinels lose against every real in-band cell
+(`_out < _notavail <` any `encodeValues s l false`); from 30001 on a real cell of score 0 loses against `_notavail` -/
+theorem lcs_sentinel_role :
+    (∀ s l : Nat, s < 65536 → l < 30000 →
+      notavailV < encodeValues s l false ∧ outV < notavailV ∧ outV < encodeValues s l false) ∧
+    (∀ l : Nat, 30000 < l → l ≤ 65534 → encodeValues 0 l false < notavailV) :=
+  ⟨fun s l hs hl => sentinel_loses s l hs hl, fun l h1 h2 => sentinel_wins_beyond l h1 h2⟩
+
+/-- **`fastLCS_length_bound_needed`** — for EVERY sequence `A` with `30000 < |A| ≤ 65534`, the kernel (no bound, any
+scratch buffer) answers `(0, 30000, 0)` for `A` against the empty sequence, while the optimum is `(0, |A|)`: the
+hypothesis on the lengths of `fastLCS_exact` cannot be dropped (finding C09-len30000; on the real code:
+`lcslong` cases of the harness). -/
+theorem fastLCS_length_bound_needed (A : Seq) (fill : Option UInt64) (h1 : 30000 < A.length) (h2 : A.length ≤ 65534) :
+    fastLCSEGFScoreByte A [] (-1) false fill = .ok (0, 30000, 0) ∧ lcsDP samenuc A [] = (0, A.length) := by
+  obtain ⟨h3, h4⟩ := bandLCS_long_row0 A h1 h2
+  rw [fastLCS_verbatim_refines, h3]
+  exact ⟨rfl, h4⟩
+
+/-! ## The callers' conventions (obiclean/graph.go, obitag.go) -/
+
+/-- **`d1or0_caller_swap`** — `buildSamplePairs` of obiclean calls `D1Or0(son, father)` and records the edge as
+`makeEdge(j, d, pos, a2, a1)` (symbols exchanged): with verdict 1, `(pos, a2, a1)` is the edit that turns the FATHER
+into the SON. -/
+theorem d1or0_caller_swap (son father : Seq) :
+    ∃ d, d1or0 son father = .ok d ∧
+      (d.verdict = 1 → ∃ n : Nat, d.pos = (n : Int) ∧ OneEdit father son n d.a2 d.a1) := by
+  refine ⟨d1F son father, d1or0_refines son father, fun h => ?_⟩
+  obtain ⟨n, hn, he⟩ := (d1or0_spec son father).2.2.2.1 h
+  exact ⟨n, hn, he.swap⟩
+
+/-- **`fastLCSScore_caller_decides`** — `extendSimilarityGraph` of obiclean and `FindClosests` of obitag call
+`FastLCSScore(x, y, e)` with an explicit bound and accept the pair iff `lcs >= 0` and `alilength - lcs <= e`: for
+`|a| + |b| < 30000` this happens iff the optimal alignment has at most `e` differences, and then `alilength - lcs` is
+exactly the number of differences of the optimum. On the verbatim wrapper. -/
+theorem fastLCSScore_caller_decides (a b : Seq) (e : Int) (hlen : a.length + b.length + 1 ≤ 30000) (he : e ≠ -1) :
+    ((∃ s l : Nat, fastLCSScore a b e = .ok ((s : Int), (l : Int)) ∧ (l : Int) - (s : Int) ≤ e) ↔
+      ((lcsDP samenuc a b).2 : Int) - ((lcsDP samenuc a b).1 : Int) ≤ e) ∧
+    (∀ s l : Nat, fastLCSScore a b e = .ok ((s : Int), (l : Int)) → (l : Int) - (s : Int) ≤ e →
+      (s, l) = lcsDP samenuc a b) := by
+  have key : ∀ s l : Nat, fastLCSScore a b e = .ok ((s : Int), (l : Int)) ↔ bandLCS a b e = some (s, l) := by
+    intro s l
+    rw [fastLCSScore_verbatim_refines]
+    cases hb : bandLCS a b e with
+    | none =>
+      simp only [resOf]
+      constructor
+      · intro h; injection h with h; injection h with h1 h2; omega
+      · intro h; cases h
+    | some p =>
+      obtain ⟨s', l'⟩ := p
+      simp only [resOf]
+      constructor
+      · intro h; injection h with h; injection h with h1 h2
+        have e1 : s' = s := by omega
+        have e2 : l' = l := by omega
+        rw [e1, e2]
+      · intro h; injection h with h; injection h with h1 h2; rw [h1, h2]
+  obtain ⟨d1, d2⟩ := fastLCS_decides_bound a b e hlen he
+  refine ⟨⟨?_, ?_⟩, fun s l h hb => d2 s l ((key s l).1 h) hb⟩
+  · rintro ⟨s, l, h, hb⟩
+    exact d1.1 ⟨s, l, (key s l).1 h, hb⟩
+  · intro h
+    obtain ⟨s, l, h1, hb⟩ := d1.2 h
+    exact ⟨s, l, (key s l).2 h1, hb⟩
+
+/-- `_lpath` (fastlcs.go) is the length field of `decodeValues`; `_isout` its flag -/
+theorem lpath_isout_eq_decode (v : UInt64) : lpath v = (decodeValues v).2.1 ∧ isout v = (decodeValues v).2.2 := ⟨rfl, rfl⟩
 
 end ObiVerif.Props.C09
